@@ -4062,6 +4062,14 @@ def trait_misc_items(repo):
             dict(u, file=l, fn='into_limbs', lean='uint_into_limbs', key='Uint::into_limbs')]
 
 
+def utils_items(repo):
+    """src/utils.rs: `rem_up`, `last_idx`, `trim_end_slice`, `trim_end_vec` (generic element type read as a word) — optional"""
+    f = repo + '/src/utils.rs'
+    u = {'file': f, 'group': 'utils', 'optional': True, 'typarams_ty': {'T': 'u64'}}
+    return [dict(u, fn='rem_up', lean='utils_rem_up'), dict(u, fn='last_idx', lean='utils_last_idx'),
+            dict(u, fn='trim_end_slice', lean='utils_trim_end_slice'), dict(u, fn='trim_end_vec', lean='utils_trim_end_vec')]
+
+
 def macro_items(repo):
     """`pad_limbs` of the `uint!` proc macro (ruint-macro/src/lib.rs): trim / pad to the limb count and the range check"""
     f = repo + '/ruint-macro/src/lib.rs'
@@ -4150,6 +4158,7 @@ GROUPS = [('core', 'Words', ('Ruint.Gen.Prelude',)),
           ('der', 'WordsDer', ('Ruint.Gen.WordsBytes',)),
           ('str', 'WordsStr', ('Ruint.Gen.WordsRadix', 'Ruint.Gen.PreludeRes', 'Ruint.Gen.PreludeStr')),
           ('macro2', 'WordsMacro2', ('Ruint.Gen.Prelude', 'Ruint.Gen.PreludeRes', 'Ruint.Gen.PreludeStr')),
+          ('utils', 'WordsUtils', ('Ruint.Gen.Prelude',)),
           ('traitmisc', 'WordsTraitMisc', ('Ruint.Gen.WordsUint', 'Ruint.Gen.WordsUintMod')),
           ('bitsfwd', 'WordsBitsFwd', ('Ruint.Gen.WordsUint', 'Ruint.Gen.WordsBytes', 'Ruint.Gen.WordsStr', 'Ruint.Gen.WordsUintMod'))]
 
@@ -4189,6 +4198,7 @@ def translate_all(repo):
     items += str_items(repo)
     items += bits_forward_items(repo)
     items += trait_misc_items(repo)
+    items += utils_items(repo)
     try:
         items += lehmer_items(repo)
     except (OSError, IOError) as ex:
